@@ -252,10 +252,12 @@ def make_harness(case, tier):
                                        dict(info, task=t, keys_over_hash_seeds=sorted(seen.get(t, ()))))
                 return
             try:
-                instr.SX.SYMBOLIC_SET_ORDER[0] = True      # `{... for v in val}` yields a set of symbolic order
+                # `{... for v in val}` yields a set of symbolic order; chain A and chain B stand for two interpreters
+                instr.SX.SYMBOLIC_SET_ORDER[0] = 'A'
                 A = mk(BASE, dict(vals, opts=PO.Sized(size, tags=set(elems))))
-                B_ = mk(BASE, dict(vals, opts=PO.Sized(size, tags=set(elems))))
                 ka = [A.tasks[t].name_for_persistence for t in A.tasks]
+                instr.SX.SYMBOLIC_SET_ORDER[0] = 'B'
+                B_ = mk(BASE, dict(vals, opts=PO.Sized(size, tags=set(elems))))
                 kb = [B_.tasks[t].name_for_persistence for t in B_.tasks]
             except AssertionError:
                 return
